@@ -151,6 +151,7 @@ fn broker_packet(t: &[&str]) -> Packet {
 //   KACONN <ver> <timeout_s> <handshake_ms|never>
 //      -> KACONN CONNECTED@<t> | KACONN ERROR <kind>@<t>
 struct KaArgs {
+    broker_first: bool,
     ka_ms: u64,
     delays: Vec<u64>,
     silent_from: usize,
@@ -162,6 +163,7 @@ struct KaArgs {
 
 fn ka_args(t: &[&str]) -> KaArgs {
     KaArgs {
+        broker_first: t[1].ends_with('b'),
         ka_ms: t[2].parse().unwrap(),
         delays: t[3].split(',').map(|x| x.parse().unwrap()).collect(),
         silent_from: t[4].parse().unwrap(),
@@ -249,12 +251,22 @@ macro_rules! ka_scenario {
                     std::future::pending::<()>().await
                 }
             };
-            let end = tokio::select! {
-                biased;
-                r = client_fut => format!("ERROR {}@{}", r.0, r.1),
-                _ = broker_fut => unreachable!(),
-                _ = up_fut => unreachable!(),
-                _ = tokio::time::sleep_until(start + Duration::from_millis(a.horizon)) => format!("HORIZON@{}", ms(start)),
+            let end = if a.broker_first {
+                tokio::select! {
+                    biased;
+                    _ = broker_fut => unreachable!(),
+                    _ = up_fut => unreachable!(),
+                    r = client_fut => format!("ERROR {}@{}", r.0, r.1),
+                    _ = tokio::time::sleep_until(start + Duration::from_millis(a.horizon)) => format!("HORIZON@{}", ms(start)),
+                }
+            } else {
+                tokio::select! {
+                    biased;
+                    r = client_fut => format!("ERROR {}@{}", r.0, r.1),
+                    _ = broker_fut => unreachable!(),
+                    _ = up_fut => unreachable!(),
+                    _ = tokio::time::sleep_until(start + Duration::from_millis(a.horizon)) => format!("HORIZON@{}", ms(start)),
+                }
             };
             let f = |v: &RefCell<Vec<u64>>| v.borrow().iter().map(|x| x.to_string()).collect::<Vec<_>>().join(" ");
             let c = conn_at.borrow().map(|x| x.to_string()).unwrap_or("-".into());
@@ -471,7 +483,7 @@ async fn run() {
             }
             "KA" => {
                 let a = ka_args(&t);
-                if t[1] == "4" { ka4(a, &next_socket).await } else { ka5(a, &next_socket).await }
+                if t[1].starts_with('4') { ka4(a, &next_socket).await } else { ka5(a, &next_socket).await }
             }
             "KACONN" => {
                 let h = if t[3] == "never" { None } else { Some(t[3].parse().unwrap()) };
